@@ -6,6 +6,7 @@ import (
 	"math"
 	"testing"
 
+	"github.com/pion/rtcp"
 	"pgregory.net/rapid"
 
 	"verif/conv"
@@ -101,6 +102,32 @@ var subC08 = harness.NewSub("c08-no-silent-truncation", func(c c08Case, hd harne
 	}
 	if !conv.Equal(want, got) {
 		return fmt.Errorf("row %s (%s): Marshal succeeded but the emitted bytes do not represent the value's content\n%s\nbytes: %s", c.Row, c.Side, conv.Diff(want, got), hexs(out))
+	}
+	return nil
+})
+
+// c08SymSize: the symbol-size selector of a status vector chunk is a one-bit field that the
+// model (a bool) cannot over-fill, so it is probed on the library's struct directly.
+type c08SymSize struct {
+	SymbolSize uint16
+	Symbols    []uint16
+}
+
+var subC08SymSize = harness.NewSub("c08-twcc-symbol-size-field", func(c c08SymSize, _ harness.Dialect) error {
+	ch := rtcp.StatusVectorChunk{Type: rtcp.TypeTCCStatusVectorChunk, SymbolSize: c.SymbolSize, SymbolList: append([]uint16(nil), c.Symbols...)}
+	b, err := ch.Marshal()
+	if c.SymbolSize > 1 {
+		if err == nil {
+			return fmt.Errorf("StatusVectorChunk{SymbolSize: %d, SymbolList: %v}.Marshal() = %x with a nil error: the one-bit symbol size field cannot hold %d", c.SymbolSize, c.Symbols, b, c.SymbolSize)
+		}
+		return nil
+	}
+	if err != nil {
+		return fmt.Errorf("StatusVectorChunk{SymbolSize: %d, SymbolList: %v}.Marshal(): %v", c.SymbolSize, c.Symbols, err)
+	}
+	want, _ := m.ChunkWord(m.TWCCChunk{Vector: true, TwoBit: c.SymbolSize == 1, Symbols: c.Symbols})
+	if len(b) != 2 || uint16(b[0])<<8|uint16(b[1]) != want {
+		return fmt.Errorf("StatusVectorChunk{SymbolSize: %d, SymbolList: %v}.Marshal() = %x, want %04x", c.SymbolSize, c.Symbols, b, want)
 	}
 	return nil
 })
@@ -342,6 +369,26 @@ func c08Rows() []c08Row {
 			gen.FixTWCCHeader(v, false)
 			return m.Packet{Kind: m.KTWCC, TWCC: v}
 		}},
+		{"TWCC.padding-flag-keeps-content", false, func(t *rapid.T, s string) m.Packet {
+			// the caller-supplied padding flag on content that is (below/at: not) already word aligned:
+			// either way no receive delta may be lost
+			want := 1
+			if s == "above" || s == "far" {
+				want = 0 // aligned content: no padding octets exist
+			}
+			for {
+				p := gen.PacketOf(t, m.KTWCC)
+				if len(p.TWCC.Deltas) == 0 {
+					continue
+				}
+				pad := (4 - m.TWCCContentSize(p.TWCC)%4) % 4
+				if (pad > 0) == (want == 1) {
+					gen.FixTWCCHeader(p.TWCC, true)
+					p.TWCC.Padding = true
+					return p
+				}
+			}
+		}},
 		{"TWCC.symbollist<=14/7", false, func(t *rapid.T, s string) m.Packet {
 			two := rapid.Bool().Draw(t, "two")
 			limit := 14
@@ -429,11 +476,11 @@ func c08Rows() []c08Row {
 			return m.Packet{Kind: m.KXR, XR: &m.XR{Sender: 9, Blocks: []m.XRBlock{b}}}
 		}},
 		{"size<=65536words:TWCC.chunks", false, func(t *rapid.T, s string) m.Packet {
-			n := pick(s, 32000, 32757, 32758, 40000) // 20 + 2n octets
-			v := &m.TWCC{Sender: 1, Media: 2, StatusCount: uint16(n % 65536), Chunks: make([]m.TWCCChunk, n)}
-			for i := range v.Chunks {
-				v.Chunks[i] = m.TWCCChunk{Symbol: 0, Run: 1}
-			}
+			n := pick(s, 32758, 131062, 131063, 140000) // 20 + 2n octets; 131062 chunks = 262144 octets
+			// zero-length runs cover no status, so any number of them is a valid chunk list; the
+			// last chunk covers the single status
+			v := &m.TWCC{Sender: 1, Media: 2, StatusCount: 1, Chunks: make([]m.TWCCChunk, n)}
+			v.Chunks[n-1] = m.TWCCChunk{Symbol: 0, Run: 1}
 			gen.FixTWCCHeader(v, false)
 			return m.Packet{Kind: m.KTWCC, TWCC: v}
 		}},
@@ -527,6 +574,16 @@ func TestC08(t *testing.T) {
 	harness.NonTrivialDistinct(n - (hi - lo))
 	harness.Exhaustive(subC08.Name, fmt.Sprintf("%d limit rows x {below, at, above, far beyond} x generated surrounding values", len(rows)))
 
+	if harness.Cfg.Shard == 0 {
+		for _, sz := range []uint16{0, 1, 2, 3, 4, 0x8000, 0xFFFF} {
+			for _, syms := range [][]uint16{nil, {0}, {1, 0, 1}, {0, 0, 0, 0, 0, 0, 0}} {
+				subC08SymSize.Check(t, c08SymSize{SymbolSize: sz, Symbols: syms})
+				harness.Eval(subC08SymSize.Name, 1)
+				harness.NonTrivialDistinct(1)
+			}
+		}
+		harness.Sample(subC08SymSize.Name, 9, c08SymSize{SymbolSize: 2, Symbols: []uint16{1, 0, 1}})
+	}
 	// boundary probes embedded in fully random D-values are also covered by drawing plain D-values
 	harness.RapidCheck(t, harness.Scale(1500, 12000), 88, func(rt *rapid.T) {
 		c := c08Case{Row: "D-value", Side: "below", Enumerated: true, P: gen.Packet(rt)}
